@@ -197,4 +197,399 @@ structure InvG (s : St) : Prop where
 theorem invG_init (b : Int) (tk : Nat) : InvG (init b tk) := by
   constructor <;> simp [init, seqOK, lastSeq, Linked, headFinal, instOf, holds, uncounted, counted, quietPC, isMid, RPC.early, RPC.quiet, RPC.fresh, RPC.preCopy]
 
+macro "inv_close" : tactic => `(tactic| (constructor <;> simp only [seqOK] at * <;> grind))
+
+theorem invG_spawn {s s' : St} (hi : InvG s) (h : step? s .spawn = some s') : InvG s' := by
+  simp only [step?] at h
+  simp at h; subst h
+  obtain ⟨a1,a2,a3,a4,a5,a6,a7,a8,a9,a10,a11,a12,a13,a14,a15,a16,a17,a18⟩ := hi
+  constructor <;> simp only [seqOK] at * <;> grind
+
+theorem invG_gate {s s' : St} {t : Nat} (hi : InvG s) (h : step? s (.gate t) = some s') : InvG s' := by
+  simp only [step?] at h
+  obtain ⟨a1,a2,a3,a4,a5,a6,a7,a8,a9,a10,a11,a12,a13,a14,a15,a16,a17,a18⟩ := hi
+  split at h
+  · split at h
+    · split at h
+      · simp at h
+      · simp at h; subst h
+        constructor <;> simp only [seqOK] at * <;> grind
+    · simp at h
+  · simp at h
+
+theorem invG_getActive {s s' : St} {t : Nat} (hi : InvG s) (h : step? s (.getActive t) = some s') : InvG s' := by
+  simp only [step?] at h
+  obtain ⟨a1,a2,a3,a4,a5,a6,a7,a8,a9,a10,a11,a12,a13,a14,a15,a16,a17,a18⟩ := hi
+  split at h
+  · simp at h; subst h
+    constructor <;> simp only [seqOK] at * <;> grind
+  · simp at h
+
+theorem invG_pendAdd {s s' : St} {t : Nat} (hi : InvG s) (h : step? s (.pendAdd t) = some s') : InvG s' := by
+  simp only [step?] at h
+  obtain ⟨a1,a2,a3,a4,a5,a6,a7,a8,a9,a10,a11,a12,a13,a14,a15,a16,a17,a18⟩ := hi
+  split at h
+  · simp at h; subst h; inv_close
+  · simp at h
+
+theorem invG_respGetActive {s s' : St} {t : Nat} (hi : InvG s) (hg : Guard s (.respGetActive t))
+    (h : step? s (.respGetActive t) = some s') : InvG s' := by
+  simp only [step?] at h
+  simp only [Guard] at hg
+  obtain ⟨a1,a2,a3,a4,a5,a6,a7,a8,a9,a10,a11,a12,a13,a14,a15,a16,a17,a18⟩ := hi
+  split at h
+  · split at h
+    · simp at h; subst h; inv_close
+    · simp at h
+  · simp at h
+
+theorem invG_lockInst {s s' : St} {t : Nat} (hi : InvG s) (h : step? s (.lockInst t) = some s') : InvG s' := by
+  simp only [step?] at h
+  obtain ⟨a1,a2,a3,a4,a5,a6,a7,a8,a9,a10,a11,a12,a13,a14,a15,a16,a17,a18⟩ := hi
+  split at h
+  · split at h
+    · simp at h; subst h; inv_close
+    · simp at h
+  · split at h
+    · simp at h; subst h; inv_close
+    · simp at h
+  · simp at h
+
+theorem invG_newMsg {s s' : St} {t cnt : Nat} (hi : InvG s) (h : step? s (.newMsg t cnt) = some s') : InvG s' := by
+  simp only [step?] at h
+  obtain ⟨a1,a2,a3,a4,a5,a6,a7,a8,a9,a10,a11,a12,a13,a14,a15,a16,a17,a18⟩ := hi
+  split at h
+  · next i req hpc =>
+    split at h
+    · simp at h
+    · simp at h; subst h
+      have hact : i = s.active := a2 t i (by simp [hpc, instOf])
+      have hh : s.holder i = some (.s t) := a6 t i (by simp [hpc, holds])
+      subst hact
+      inv_close
+  · simp at h
+
+theorem invG_unlockInst {s s' : St} {t : Nat} (hi : InvG s) (h : step? s (.unlockInst t) = some s') : InvG s' := by
+  simp only [step?] at h
+  obtain ⟨a1,a2,a3,a4,a5,a6,a7,a8,a9,a10,a11,a12,a13,a14,a15,a16,a17,a18⟩ := hi
+  split at h
+  · next i req idx cnt hpc =>
+    split at h
+    · simp at h; subst h
+      have hact : i = s.active := a2 t i (by simp [hpc, instOf])
+      have hh : s.holder i = some (.s t) := a6 t i (by simp [hpc, holds])
+      subst hact
+      cases req <;> inv_close
+    · simp at h
+  · simp at h
+
+theorem invG_write {s s' : St} {t : Nat} {sq : Int} (hi : InvG s) (h : step? s (.write t sq) = some s') : InvG s' := by
+  simp only [step?] at h
+  obtain ⟨a1,a2,a3,a4,a5,a6,a7,a8,a9,a10,a11,a12,a13,a14,a15,a16,a17,a18⟩ := hi
+  split at h
+  · next i req idx cnt hpc =>
+    split at h
+    · next hlt =>
+      by_cases hv : (if idx = 0 then s.seq i else next (s.seq i)) = sq
+      · simp only [hv, if_true] at h
+        simp only [Option.some.injEq] at h; subst h
+        have hact : i = s.active := a2 t i (by simp [hpc, instOf])
+        have hh : s.holder i = some (.s t) := a6 t i (by simp [hpc, holds])
+        subst hact
+        have hnq : s.rpc.quiet = false := by
+          cases hq : s.rpc.quiet
+          · rfl
+          · have := a4 hq t; simp [hpc, quietPC] at this
+        have hfr : s.rpc.fresh = none := by
+          cases hf : s.rpc.fresh
+          · rfl
+          · have := fresh_quiet _ _ hf; simp [hnq] at this
+        have hseq := a8 hfr
+        simp only [seqOK, hh] at hseq
+        -- the new chunk links to the wire
+        have hlink : Linked s.base ({ inst := s.active, tok := s.tok s.active, seq := sq, msg := t, opn := false, idx := idx, cnt := cnt } :: s.wire) := by
+          apply linked_cons a15
+          · simp only
+            rw [← hv]
+            cases idx with
+            | zero => simp [hpc, isW0] at hseq; simp [hseq]
+            | succ k => simp [hpc, isW0] at hseq; simp [hseq]
+          · intro h0
+            simp only at h0
+            subst h0
+            apply a14
+            cases hm : s.mid with
+            | none => rfl
+            | some t' =>
+              have m1 := a12 t' hm
+              have : holds (s.pc t') = some s.active := by
+                cases hp : s.pc t' <;> simp [hp, isMid] at m1
+                next i' r' x' c' => simp [holds]; exact a2 t' i' (by simp [hp, instOf])
+              have := a6 t' _ this
+              rw [hh] at this
+              simp at this; subst this
+              simp [hpc, isMid] at m1
+          · intro hne
+            simp only at hne
+            cases idx with
+            | zero => exact absurd rfl hne
+            | succ k => exact ⟨k, rfl, a11 t _ _ _ _ hpc, rfl⟩
+        have excl : ∀ t1 i, holds (s.pc t1) = some i → t1 = t := by
+          intro t1 i hh1
+          have e1 : i = s.active := a2 t1 i (by cases hp : s.pc t1 <;> simp [hp, holds, instOf] at hh1 ⊢ <;> exact hh1)
+          subst e1
+          have := a6 t1 _ hh1
+          rw [hh] at this
+          simp at this; exact this.symm
+        constructor
+        case linked => exact hlink
+        case seqA =>
+          intro _
+          simp [seqOK, hh, lastSeq, isW0]
+        case w1 =>
+          intro t1 i1 r1 k c1 hp1
+          simp only [upd_apply] at hp1
+          by_cases ht : t1 = t
+          · subst ht
+            simp at hp1
+            obtain ⟨_, _, hk, hc⟩ := hp1
+            simp [headIs]; omega
+          · simp [ht] at hp1
+            exact absurd (excl t1 i1 (by simp [hp1, holds])) ht
+        case midB =>
+          intro t1 hm1
+          simp only [upd_apply] at hm1
+          by_cases ht : t1 = t
+          · subst ht
+            simp [isMid] at hm1
+            simp [hm1]
+          · simp [ht] at hm1
+            have : ∃ i, holds (s.pc t1) = some i := by
+              cases hp : s.pc t1 <;> simp [hp, isMid] at hm1
+              simp [holds]
+            obtain ⟨i1, hi1⟩ := this
+            exact absurd (excl t1 i1 hi1) ht
+        case midN =>
+          intro hm
+          simp only at hm
+          simp only [headFinal]
+          by_cases hl : idx + 1 < cnt
+          · simp [hl] at hm
+          · omega
+        all_goals (simp only [seqOK] at * ; grind)
+      · simp [hv] at h
+    · simp at h
+  · simp at h
+
+theorem invG_settle {s : St} (hi : InvG s) (hq : s.rpc = .waiting → s.pend = [] → ∀ t, quietPC (s.pc t) = true) : InvG (settle s) := by
+  unfold settle
+  split
+  · next hc =>
+    obtain ⟨a1,a2,a3,a4,a5,a6,a7,a8,a9,a10,a11,a12,a13,a14,a15,a16,a17,a18⟩ := hi
+    have hq' := hq hc.1 hc.2
+    constructor <;> simp only [seqOK] at * <;> grind
+  · exact hi
+
+theorem invG_pendDone {s s' : St} {t : Nat} (hi : InvG s) (h : step? s (.pendDone t) = some s') : InvG s' := by
+  simp only [step?] at h
+  split at h
+  · next i hpc =>
+    simp at h; subst h
+    apply invG_settle
+    · obtain ⟨a1,a2,a3,a4,a5,a6,a7,a8,a9,a10,a11,a12,a13,a14,a15,a16,a17,a18⟩ := hi
+      inv_close
+    · intro hw he t1
+      obtain ⟨a1,a2,a3,a4,a5,a6,a7,a8,a9,a10,a11,a12,a13,a14,a15,a16,a17,a18⟩ := hi
+      simp only at hw he ⊢
+      have e3 := a3 (by simp [hw, RPC.early]) t1
+      simp only [upd_apply]
+      by_cases ht : t1 = t
+      · simp [ht, quietPC]
+      · simp only [ht, if_false]
+        have e5 : counted (s.pc t1) = false := by
+          cases hc : counted (s.pc t1)
+          · rfl
+          · have m := a5 t1 hc
+            have : Who.s t1 ∈ s.pend.erase (Who.s t) := (List.mem_erase_of_ne (by simp [ht])).2 m
+            rw [he] at this; simp at this
+        cases hp : s.pc t1 <;> simp_all [quietPC, counted, uncounted]
+  · simp at h
+
+theorem invG_rLock {s s' : St} (hi : InvG s) (hg : Guard s .rLock) (h : step? s .rLock = some s') : InvG s' := by
+  simp only [step?] at h
+  simp only [Guard] at hg
+  obtain ⟨a1,a2,a3,a4,a5,a6,a7,a8,a9,a10,a11,a12,a13,a14,a15,a16,a17,a18⟩ := hi
+  have hg' : ∀ t, uncounted (s.pc t) = false := by
+    intro t
+    by_cases hs : s.pc t = .start
+    · simp [hs, uncounted]
+    · exact hg t (a18 t hs)
+  split at h
+  · split at h
+    · simp at h; subst h; inv_close
+    · simp at h
+  · simp at h
+
+theorem invG_rWaitDone {s s' : St} (hi : InvG s) (h : step? s .rWaitDone = some s') : InvG s' := by
+  simp only [step?] at h
+  obtain ⟨a1,a2,a3,a4,a5,a6,a7,a8,a9,a10,a11,a12,a13,a14,a15,a16,a17,a18⟩ := hi
+  split at h
+  · simp at h; subst h; inv_close
+  · simp at h
+
+theorem invG_rLockOld {s s' : St} (hi : InvG s) (h : step? s .rLockOld = some s') : InvG s' := by
+  simp only [step?] at h
+  obtain ⟨a1,a2,a3,a4,a5,a6,a7,a8,a9,a10,a11,a12,a13,a14,a15,a16,a17,a18⟩ := hi
+  split at h
+  · split at h
+    · simp at h; subst h; inv_close
+    · simp at h
+  · simp at h
+
+theorem invG_rInstall {s s' : St} {tk : Nat} (hi : InvG s) (h : step? s (.rInstall tk) = some s') : InvG s' := by
+  simp only [step?] at h
+  obtain ⟨a1,a2,a3,a4,a5,a6,a7,a8,a9,a10,a11,a12,a13,a14,a15,a16,a17,a18⟩ := hi
+  split at h
+  · simp at h; subst h; inv_close
+  · simp at h
+
+theorem invG_rUnlockOld {s s' : St} (hi : InvG s) (h : step? s .rUnlockOld = some s') : InvG s' := by
+  simp only [step?] at h
+  obtain ⟨a1,a2,a3,a4,a5,a6,a7,a8,a9,a10,a11,a12,a13,a14,a15,a16,a17,a18⟩ := hi
+  split at h
+  · simp at h; subst h; inv_close
+  · next j hr => exact absurd hr (a17 j)
+  · simp at h
+
+theorem invG_rUnlock {s s' : St} (hi : InvG s) (h : step? s .rUnlock = some s') : InvG s' := by
+  simp only [step?] at h
+  obtain ⟨a1,a2,a3,a4,a5,a6,a7,a8,a9,a10,a11,a12,a13,a14,a15,a16,a17,a18⟩ := hi
+  split at h
+  · simp at h; subst h; inv_close
+  · simp at h
+
+theorem invG_rWaitBegin {s s' : St} (hi : InvG s) (h : step? s .rWaitBegin = some s') : InvG s' := by
+  simp only [step?] at h
+  split at h
+  · next hr =>
+    simp at h; subst h
+    obtain ⟨a1,a2,a3,a4,a5,a6,a7,a8,a9,a10,a11,a12,a13,a14,a15,a16,a17,a18⟩ := hi
+    apply invG_settle
+    · inv_close
+    · intro _ he t1
+      simp only at he ⊢
+      have e3 := a3 (by simp [hr, RPC.early]) t1
+      have e5 : counted (s.pc t1) = false := by
+        cases hc : counted (s.pc t1)
+        · rfl
+        · have m := a5 t1 hc
+          rw [he] at m; simp at m
+      cases hp : s.pc t1 <;> simp_all [quietPC, counted, uncounted]
+  · simp at h
+
+theorem invG_rCopy {s s' : St} (hi : InvG s) (h : step? s .rCopy = some s') : InvG s' := by
+  simp only [step?] at h
+  obtain ⟨a1,a2,a3,a4,a5,a6,a7,a8,a9,a10,a11,a12,a13,a14,a15,a16,a17,a18⟩ := hi
+  split at h
+  · next hr =>
+    simp at h; subst h
+    have hq := a4 (by simp [hr, RPC.quiet])
+    have ho := a16 (by simp [hr, RPC.preCopy])
+    have hs := a8 (by simp [hr, RPC.fresh])
+    have hnone : ∀ t i, s.holder i ≠ some (Who.s t) := by
+      intro t i hh
+      have := a7 t i hh
+      have q := quiet_pc _ (hq t)
+      rw [q.2.1] at this; simp at this
+    have hseq : s.seq s.old = lastSeq s.base s.wire := by
+      rw [ho]
+      simp only [seqOK] at hs
+      rw [hs]
+      split
+      · next t hh => exact absurd hh (hnone t _)
+      · rfl
+    constructor
+    case seqF =>
+      intro j hj
+      simp [RPC.fresh] at hj
+      subst hj
+      simp [hseq]
+    all_goals (simp only [seqOK] at * ; grind)
+  · simp at h
+
+theorem invG_rSendOPN {s s' : St} {sq : Int} (hi : InvG s) (h : step? s (.rSendOPN sq) = some s') : InvG s' := by
+  simp only [step?] at h
+  obtain ⟨a1,a2,a3,a4,a5,a6,a7,a8,a9,a10,a11,a12,a13,a14,a15,a16,a17,a18⟩ := hi
+  split at h
+  · next j hr =>
+    split at h
+    · next hv =>
+      simp at h; subst h
+      have hq := a4 (by simp [hr, RPC.quiet])
+      have hf := a9 j (by simp [hr, RPC.fresh])
+      have hmid : s.mid = none := by
+        cases hm : s.mid with
+        | none => rfl
+        | some t' =>
+          have := a12 t' hm
+          have q := quiet_pc _ (hq t')
+          rw [q.2.2.2.2.2] at this; simp at this
+      have hlink : Linked s.base ({ inst := j, tok := 0, seq := next (s.seq j), msg := 0, opn := true, idx := 0, cnt := 1 } :: s.wire) := by
+        apply linked_cons a15
+        · simp [hf.1]
+        · intro _; exact a14 hmid
+        · intro hne; simp at hne
+      constructor
+      case linked => exact hlink
+      case seqF =>
+        intro j' hj'
+        simp [RPC.fresh] at hj'
+        subst hj'
+        simp [lastSeq, hf.2]
+      case midN => intro _; simp [headFinal]
+      case w1 =>
+        intro t1 i1 r1 k c1 hp1
+        have q := hq t1
+        simp only at hp1
+        rw [hp1] at q
+        simp [quietPC] at q
+      all_goals (simp only [seqOK] at * ; grind)
+    · simp at h
+  · simp at h
+
+theorem invG_step {s s' : St} {l : Label} (hi : InvG s) (hg : Guard s l) (h : step? s l = some s') : InvG s' := by
+  cases l with
+  | spawn => exact invG_spawn hi h
+  | gate t => exact invG_gate hi h
+  | getActive t => exact invG_getActive hi h
+  | pendAdd t => exact invG_pendAdd hi h
+  | respGetActive t => exact invG_respGetActive hi hg h
+  | lockInst t => exact invG_lockInst hi h
+  | newMsg t cnt => exact invG_newMsg hi h
+  | write t sq => exact invG_write hi h
+  | abort t => exact absurd hg (by simp [Guard])
+  | unlockInst t => exact invG_unlockInst hi h
+  | pendDone t => exact invG_pendDone hi h
+  | rLock => exact invG_rLock hi hg h
+  | rWaitBegin => exact invG_rWaitBegin hi h
+  | rWaitDone => exact invG_rWaitDone hi h
+  | rLockOld => exact invG_rLockOld hi h
+  | rCopy => exact invG_rCopy hi h
+  | rSendOPN sq => exact invG_rSendOPN hi h
+  | rInstall tk => exact invG_rInstall hi h
+  | rFail => exact absurd hg (by simp [Guard])
+  | rUnlockOld => exact invG_rUnlockOld hi h
+  | rUnlock => exact invG_rUnlock hi h
+
+/-- the invariant holds in every state reachable under the guard -/
+theorem reachableG_inv {s : St} (h : ReachableG s) : InvG s := by
+  induction h with
+  | init b tk => exact invG_init b tk
+  | step l _ hg hs ih => exact invG_step ih hg hs
+
+theorem reachableG_reachable {s : St} (h : ReachableG s) : Reachable s := by
+  induction h with
+  | init b tk => exact Reachable.init b tk
+  | step l _ _ hs ih => exact Reachable.step l ih hs
+
 end Opcua.SendSeq
